@@ -211,6 +211,11 @@ def run_case(P):
                 v = check(case, P, final=True)
                 if v:
                     bad.append(v + (case.step,))
+            elif any(s == "reconnect-loop" for s in case.settles):
+                # no fault is injected during stabilisation: a pair that keeps losing every new connection never
+                # delivers what was written before the closes (nor the closes themselves)
+                bad.append(("order", "fault-free stabilisation kept replacing the connection in use: data written before "
+                            "a close and the close itself are never delivered", "reconnect-loop-without-faults", case.step))
             else:
                 res.inconclusive = True
         case.close_all()
